@@ -11,7 +11,7 @@ META = dict(
                 'on N symbolic integer items are compared with the reference interpreter (maximal runs of equal predicate value, by !=, closed at key completion, '
                 'no segment for an empty key); predicates return fresh tuples / run-time built strings so equality and identity differ, and in one family a shared object that is != itself (NaN) so identity must not short-cut the comparison. '
                 'A one-step form runs split_mux from an arbitrary stored predicate (NOTSET or a value) on one item.',
-    bounds=dict(quick='N <= 5 items (4 for the v//3 predicate and nested contexts), any integers; predicates v%3 tuple, v%2 string, v//3 tuple; contexts root, group_by(mod2), roll(2,2), roll(3,1), split, and completion-triggered consumers placed after split on the same key',
+    bounds=dict(quick='N <= 5 items (4 for the v//3 predicate and nested contexts), any integers; predicates v%3 tuple, v%2 string, v//3 tuple; contexts root, group_by(mod2), roll(2,2), roll(3,1), split, and completion-triggered consumers placed after split on the same key; long-but-narrow: 9 / 17 / 33 keys live at once under group_by with 4 symbolic items',
                 thorough='N <= 7 (root), N <= 5 nested; same predicates and contexts'),
     outside='longer streams except through the one-step form; predicates with side effects or raising; error (OnErrorMux) closing path beyond the one-step form',
     assumptions=['reference interpreter vp/refsem.py transcribes the property statement', 'synchronous single-threaded delivery (RxPY immediate scheduling)'],
